@@ -235,6 +235,9 @@ let handle_line line =
         (match h with
          | None -> Buffer.add_string out (Printf.sprintf "R %s panic\n" idx)
          | Some h ->
+           (* fresh = the query has not been advanced yet *)
+           let fresh = (match List.nth_opt ws.w.w_queries (int_of_nat h) with
+               | Some q -> q.q_next = O && q.q_cur = None | None -> true) in
            let cnt = (match stepm (OQCount h) with Ok (VNat c) -> int_of_nat c | _ -> -1) in
            let acc = ref [] in
            let continue = ref true in
@@ -247,6 +250,9 @@ let handle_line line =
               | _ -> continue := false)
            done;
            let sl = List.sort compare !acc in
+           if not fresh then
+             Buffer.add_string out (Printf.sprintf "R %s rem %d n=%d\n" idx (List.length sl) cnt)
+           else
            Buffer.add_string out (Printf.sprintf "R %s set %s n=%d\n" idx
                                     (if sl = [] then "-" else String.concat "," (List.map string_of_int sl)) cnt);
            let evl = List.sort compare (List.map (str_event ws) !evs_acc) in
